@@ -497,14 +497,18 @@ def run_shard(desc, ctx):
     try:
         if desc["kind"] == "random":
             # a heat-map style table with several hundred different colours (more than fit into one byte)
-            names = rng.sample(G.colors(), rng.choice([200, 256, 257, 300, 400]))
-            n, nc = len(names) // 10, 10
-            big = {"kind": "table", "df": tagged_df(n, nc), "colheader": "none", "title": None,
-                   "page": {"nrow": n + 10},
-                   "body": {"text_color": [names[r * nc:(r + 1) * nc] for r in range(n)],
-                            "text_background_color": [list(reversed(names[r * nc:(r + 1) * nc])) for r in range(n)]}}
-            ctx.count("documents_with_200+_colours")
-            check_spec(ctx, big, hook)
+            # ... and more of them, with OTHER colours, later in the same process (101..400 colours each)
+            for size in (rng.choice([200, 256, 257, 300, 400]), rng.choice([101, 120, 160]),
+                         rng.choice([110, 200, 300])):
+                names = rng.sample(G.colors(), size)
+                n, nc = len(names) // 10, 10
+                big = {"kind": "table", "df": tagged_df(n, nc), "colheader": "none", "title": None,
+                       "page": {"nrow": n + 10},
+                       "body": {"text_color": [names[r * nc:(r + 1) * nc] for r in range(n)],
+                                "text_background_color": [list(reversed(names[r * nc:(r + 1) * nc]))
+                                                          for r in range(n)]}}
+                ctx.count("documents_with_100+_colours")
+                check_spec(ctx, big, hook)
             for _ in range(desc["n"]):
                 r = rng.random()
                 if r < 0.5:
